@@ -46,6 +46,9 @@ pub struct Program {
     /// /basepath and are re-based onto the directory when sent (and back when received).
     #[serde(default)]
     pub disk: bool,
+    /// at quiescence send the full battery (not only formatting) and compare with a freshly started server
+    #[serde(default)]
+    pub final_battery: bool,
 }
 
 static DISK_COUNTER: std::sync::atomic::AtomicU64 = std::sync::atomic::AtomicU64::new(0);
@@ -141,6 +144,8 @@ pub struct Trace {
     pub exited: bool,
     /// hook events (tid, point) in order
     pub events: Vec<(u64, String)>,
+    /// the editor's texts (uri -> text) when the program was exhausted
+    pub final_texts: BTreeMap<String, String>,
 }
 
 fn request_id_of(step_idx: usize) -> i64 {
@@ -444,12 +449,13 @@ pub fn execute(program: &Program, mode: &mut Mode, budget_mult: usize) -> Result
         *tr.probes.entry("unscheduled-thread-still-alive-at-quiescence".into()).or_default() += 1;
     }
     if !tr.crashed && !tr.exited && program.final_probe {
-        let keys: BTreeSet<String> = texts.keys().cloned().collect();
         let mut n = 0;
-        for u in keys {
+        tr.final_texts = texts.clone();
+        let battery = if program.final_battery { final_battery(&texts) } else { final_battery(&texts).into_iter().filter(|(m, _)| m == "textDocument/formatting").collect() };
+        for (method, params) in battery {
             n += 1;
             let rid: RequestId = (900_000 + n as i32).into();
-            let m = Message::Request(Request { id: rid, method: "textDocument/formatting".into(), params: json!({"textDocument": {"uri": u}, "options": {"tabSize": 2, "insertSpaces": true}}) });
+            let m = Message::Request(Request { id: rid, method, params });
             seq += 1;
             sys.send(match &disk_base {
                 Some(d) => rebase(&m, BASE, d),
@@ -529,6 +535,32 @@ pub fn execute(program: &Program, mode: &mut Mode, budget_mult: usize) -> Result
     }
     tr.steps = steps as u64;
     Ok(tr)
+}
+
+/// The requests sent for every note once the system is idle: formatting first (the version-token oracle reads
+/// it), then the position- and structure-dependent ones, so that the idle state can be compared with a freshly
+/// started server on the same texts.
+pub fn final_battery(texts: &BTreeMap<String, String>) -> Vec<(String, Value)> {
+    let mut v = vec![];
+    for (u, _text) in texts {
+        v.push(("textDocument/formatting".to_string(), json!({"textDocument": {"uri": u}, "options": {"tabSize": 2, "insertSpaces": true}})));
+    }
+    for (u, text) in texts {
+        for m in ["textDocument/references", "textDocument/inlayHint", "textDocument/documentSymbol"] {
+            v.push((m.to_string(), req_params(m, u, 0, 0)));
+        }
+        let links: Vec<(usize, usize)> = text.lines().enumerate().filter_map(|(i, l)| l.find("](").map(|c| (i, c + 2)).or(l.find("[[").map(|c| (i, c + 2)))).take(2).collect();
+        for (l, c) in links {
+            v.push(("textDocument/definition".to_string(), req_params("textDocument/definition", u, l as u32, c as u32)));
+            v.push(("textDocument/prepareRename".to_string(), req_params("textDocument/prepareRename", u, l as u32, c as u32)));
+        }
+        let nlines = text.lines().count().max(1);
+        for l in [0, nlines / 2, nlines - 1] {
+            v.push(("textDocument/codeAction".to_string(), json!({"textDocument": {"uri": u}, "range": {"start": {"line": l, "character": 0}, "end": {"line": l, "character": 0}}, "context": {"diagnostics": []}})));
+        }
+    }
+    v.push(("workspace/symbol".to_string(), json!({"query": ""})));
+    v
 }
 
 fn sent_uri(sent: &[Sent], id: &RequestId) -> String {
@@ -696,6 +728,75 @@ pub fn reference_answers(program: &Program, tr: &Trace) -> Result<BTreeMap<(usiz
     Ok(out)
 }
 
+/// answers of a server freshly started on `tr.final_texts` to the final battery, or None if the comparison does
+/// not apply to this run (client crashed / exited early, library on disk, names an editor would percent-encode)
+pub fn fresh_answers(program: &Program, tr: &Trace) -> Result<Option<Vec<(String, Value, String)>>, SchedError> {
+    if tr.final_texts.is_empty() || tr.crashed || program.disk || !program.final_battery {
+        return Ok(None);
+    }
+    let prefix = format!("file://{}/", BASE);
+    let mut library = BTreeMap::new();
+    for (u, t) in &tr.final_texts {
+        if u.contains('%') || !u.starts_with(&prefix) || !u.ends_with(".md") {
+            return Ok(None);
+        }
+        library.insert(u[prefix.len()..u.len() - 3].to_string(), t.clone());
+    }
+    let battery = final_battery(&tr.final_texts);
+    let steps: Vec<Step> = battery.iter().enumerate().map(|(i, (m, p))| Step::Request { method: m.clone(), params: p.clone(), fault: String::new(), id: Some(3_000_000 + i as i64) }).collect();
+    let fresh = Program { library, steps, final_probe: false, disk: false, final_battery: false, ..program.clone() };
+    let ft = execute(&fresh, &mut Mode::Sequential, 8)?;
+    let mut out = vec![];
+    for (i, (m, p)) in battery.iter().enumerate() {
+        let rid: RequestId = ((3_000_000 + i) as i32).into();
+        let resp = response_for(&ft.received, &rid);
+        let r = resp.first().and_then(|x| if let Message::Response(r) = &x.msg { Some(r) } else { None });
+        out.push((m.clone(), p.clone(), strip_node_ids(&canonical_answer(m, r))));
+    }
+    Ok(Some(out))
+}
+
+/// code-action `data` is an arena node id, which legitimately differs between a long-lived and a fresh server
+pub fn strip_node_ids(answer: &str) -> String {
+    match serde_json::from_str::<Value>(answer) {
+        Ok(Value::Array(mut a)) => {
+            for x in a.iter_mut() {
+                if let Some(o) = x.as_object_mut() {
+                    o.remove("data");
+                }
+            }
+            Value::Array(a).to_string()
+        }
+        _ => answer.to_string(),
+    }
+}
+
+/// C11, third oracle: once idle, the live server answers the final battery exactly like a server freshly
+/// started on the last texts sent
+pub fn check_against_fresh(tr: &Trace, fresh: &[(String, Value, String)]) -> Vec<Violation> {
+    let mut v = vec![];
+    let finals: Vec<&Sent> = tr.sent.iter().filter(|s| s.step == usize::MAX && matches!(&s.msg, Message::Request(_))).collect();
+    for (s, (m, p, want)) in finals.iter().zip(fresh.iter()) {
+        if let Message::Request(r) = &s.msg {
+            if &r.method != m || &r.params != p {
+                continue; // batteries out of step: no verdict
+            }
+            let resps = response_for(&tr.received, &r.id);
+            let got = strip_node_ids(&canonical_answer(m, resps.first().and_then(|x| if let Message::Response(r) = &x.msg { Some(r) } else { None })));
+            if &got != want {
+                v.push(Violation {
+                    property: "C11".into(),
+                    kind: "idle_state_differs_from_fresh_start".into(),
+                    signature: format!("idle_state_differs_from_fresh_start/{}", m),
+                    detail: format!("once idle, {} {} answers {} ; a server freshly started on the last texts sent answers {}", m, p.pointer("/textDocument/uri").and_then(|u| u.as_str()).unwrap_or(""), clip(&got), clip(want)),
+                });
+                break;
+            }
+        }
+    }
+    v
+}
+
 pub fn check_oracles(program: &Program, tr: &Trace, reference: &BTreeMap<(usize, usize), String>) -> Vec<Violation> {
     let mut v: Vec<Violation> = vec![];
     // ---- C11 (1): a notification whose handling panicked on the loop is a lost edit
@@ -844,6 +945,16 @@ pub fn check_oracles(program: &Program, tr: &Trace, reference: &BTreeMap<(usize,
                     signature: format!("edit_not_visible/{}", if s.step == usize::MAX { "at-quiescence" } else { "request-after-edit" }),
                     detail: format!("formatting of {} (message #{}) was sent after the edit carrying '{}' but the answer shows {} (acceptable: {:?})", uri, i, want.first().cloned().unwrap_or_default(), answer.as_ref().map(|t| format!("a text with {:?}", token_of(t))).unwrap_or_else(|| "no text at all".into()), want),
                 });
+                break;
+            }
+        }
+    }
+    // ---- C12: a response carries a result or an error, not neither and not both
+    for r in &tr.received {
+        if let Message::Response(resp) = &r.msg {
+            if resp.result.is_some() == resp.error.is_some() {
+                let method = tr.sent.iter().find_map(|s| if let Message::Request(q) = &s.msg { if q.id == resp.id { Some(q.method.clone()) } else { None } } else { None }).unwrap_or_default();
+                v.push(Violation { property: "C12".into(), kind: "malformed_response".into(), signature: format!("malformed_response/{}", method), detail: format!("the response to request {} ({}) has {} result and error", resp.id, method, if resp.result.is_some() { "both" } else { "neither" }) });
                 break;
             }
         }
@@ -1248,7 +1359,8 @@ pub fn generate(seed: u64, thorough: bool, faults: bool) -> GenOut {
             }
         }
     }
-    let program = Program { refs_ext, client_name, config, library, steps, final_probe: true, disk };
+    let final_battery = swarm.chance(1, 4);
+    let program = Program { refs_ext, client_name, config, library, steps, final_probe: true, disk, final_battery };
     GenOut { program, policy_name, policy }
 }
 
